@@ -52,6 +52,19 @@ class Built(object):
         self.main_ran = False
 
 
+_SUB = {}
+
+
+def _subclass_business(sd):
+    """a user-defined subclass of FixedMarginBusiness (how the example scripts extend the library)"""
+    if 'cls' not in _SUB or _SUB.get('base') is not sd.FixedMarginBusiness:
+        class ServiceBusiness(sd.FixedMarginBusiness):
+            pass
+        _SUB['cls'] = ServiceBusiness
+        _SUB['base'] = sd.FixedMarginBusiness
+    return _SUB['cls']
+
+
 def _kinds():
     from sfc_models import sector_definitions as sd
     from sfc_models.sector import Sector, Market
@@ -61,6 +74,7 @@ def _kinds():
         'Capitalists': sd.Capitalists, 'ConsolidatedGovernment': sd.ConsolidatedGovernment,
         'DoNothingGovernment': sd.DoNothingGovernment, 'Treasury': sd.Treasury, 'CentralBank': sd.CentralBank,
         'FixedMarginBusiness': sd.FixedMarginBusiness,
+        'FixedMarginBusinessSub': _subclass_business(sd),
         'FixedMarginBusinessMultiOutput': sd.FixedMarginBusinessMultiOutput,
         'TaxFlow': sd.TaxFlow, 'MoneyMarket': sd.MoneyMarket, 'DepositMarket': sd.DepositMarket,
         'GoldStandardCentralBank': sd.GoldStandardCentralBank, 'GoldStandardGovernment': sd.GoldStandardGovernment,
